@@ -81,3 +81,10 @@ class MystParser(SphinxParser):
         parser = create_md_parser(config, SphinxRenderer)
         parser.options["document"] = document
         parser.render(inputstring)
+
+        # replace raw nodes if raw is not allowed
+        # (e.g. by `raw_enabled: false` in a docutils.conf)
+        if not getattr(document.settings, "raw_enabled", True):
+            for node in list(document.findall(nodes.raw)):
+                warning = document.reporter.warning("Raw content disabled.")
+                node.parent.replace(node, warning)
